@@ -1,11 +1,13 @@
 import Driver.Util
 import Driver.C06
+import Driver.C13
 open Lean Drv
 
 def dispatch (j : Json) : Except String Json := do
   let p ← fld j "p" jStr
   match p with
   | "C06" => Drv.C06.handle j
+  | "C13" => Drv.C13.handle j
   | _ => throw s!"bad-property {p}"
 
 partial def loop (h : IO.FS.Stream) (out : IO.FS.Stream) : IO Unit := do
